@@ -10,6 +10,13 @@ pub mod ext_atomic {
     pub uninterp spec fn w_stored(a: &AtomicBool, v: bool) -> bool;
     /// a swap(new) on this flag has returned `prev`
     pub uninterp spec fn w_swapped(a: &AtomicBool, new: bool, prev: bool) -> bool;
+    /// the value the flag was created with (ghost)
+    pub uninterp spec fn atomic_init(a: &AtomicBool) -> bool;
+    /// identity stand-in for `AtomicBool::new(v)` (rule R19)
+    #[verifier::external_body]
+    pub fn atomic_new(v: bool) -> (r: AtomicBool)
+        ensures atomic_init(&r) == v,
+    { AtomicBool::new(v) }
     #[verifier::external_body]
     pub fn atomic_store(a: &AtomicBool, v: bool, o: Ordering)
         ensures w_stored(a, v),
